@@ -118,6 +118,8 @@ def sexp_steps(steps):
 
 def all_points(steps, rid=0):
     pts = [("urlopen", rid), ("read", rid), ("decode", rid)]
+    if rid != 0 or not any(s != "work" for s in steps):
+        pts.append(("cycle", rid))       # resource rid ends with an %include of the top resource (an include cycle)
     for k, s in enumerate(steps):
         if s == "work":
             pts.append(("step", rid, k))
@@ -136,6 +138,8 @@ def materialise(root, steps, rid, fault):
         else:
             materialise(root, s[2], s[1], fault)
             lines.append("%%include r%d.conf" % s[1])
+    if fault == ("cycle", rid):
+        lines.append("%include r0.conf")
     if fault == ("urlopen", rid):
         return path                                   # the file does not exist
     data = ("\n".join(lines) + "\n").encode("utf-8")
@@ -169,10 +173,11 @@ def run(ctx):
                 if fault == ("conversion",):
                     st = st + [Atom("work")]
                     pts = [[Atom("step"), 0, len(steps)]]
-                elif fault is not None:
+                elif fault is not None and fault[0] != "cycle":
                     pts = [[Atom(fault[0])] + list(fault[1:])]
                 mreqs.append([Atom("resrun"), pts, 0, st])
             mans = core.driver_batch(mreqs) if ctx.driver_ok else [None] * len(faults)
+            mans = [None if (f is not None and f[0] == "cycle") else m for f, m in zip(faults, mans)]   # cycles: direct oracle only
             from ZConfig.loader import ConfigLoader
             reused = ConfigLoader(schema)     # one loader object serves every load of this tree, failed ones included
             for fault, ma in zip(faults, mans):
@@ -313,7 +318,7 @@ def _schema_graphs(ctx, tr, pk, base):
     _failed_import_leaves_nothing(ctx, pk)
     comp = pk.add_component([F.TypeD("cimp", [F.KeyD("k", "string")])])
     shapes = []
-    for bad in (None, "base", "mid", "imp", "missing"):
+    for bad in (None, "base", "mid", "imp", "missing", "missing-first", "broken-last", "fragment-first"):
         shapes.append(bad)
     for bad in shapes:
         root = tempfile.mkdtemp(prefix="zcv-c19s-", dir=base)
@@ -324,8 +329,10 @@ def _schema_graphs(ctx, tr, pk, base):
             w("base.xml", "<schema><key name='b'/>" + ("<oops" if bad == "base" else "") + "</schema>")
             w("imp.xml", "<schema><sectiontype name='it'/>" + ("</oops>" if bad == "imp" else "") + "</schema>")
             w("mid.xml", "<schema extends='base.xml'><import src='imp.xml'/><import package='%s'/>%s</schema>" % (comp, "<key/>" if bad == "mid" else ""))
-            w("top.xml", "<schema extends='mid.xml%s'><import package='%s'/><multisection type='cimp' name='*' attribute='c'/></schema>" % (
-                " nosuch.xml" if bad == "missing" else "", comp))
+            w("other.xml", "<schema><key name='o'/>" + ("<oops" if bad == "broken-last" else "") + "</schema>")
+            ext = {"missing": "mid.xml nosuch.xml", "missing-first": "nosuch.xml mid.xml", "broken-last": "mid.xml other.xml",
+                   "fragment-first": "other.xml#frag mid.xml"}.get(bad, "mid.xml")
+            w("top.xml", "<schema extends='%s'><import package='%s'/><multisection type='cimp' name='*' attribute='c'/></schema>" % (ext, comp))
             tr.reset()
             try:
                 schema = ZConfig.loadSchema(os.path.join(root, "top.xml"))
